@@ -129,3 +129,72 @@ Proof.
   exists 4, 5. eexists. eexists. exists (0, [3; 0]). vm_compute.
   split; [lia|]. split; [reflexivity|]. split; [reflexivity|]. split; [now left|]. split; [now left|]. lia.
 Qed.
+
+(* ------------------------------------------------------------------ the whole table at once *)
+
+Lemma NoDup_flat_map_intro {A B} (f : A -> list B) : forall l,
+  (forall k a, nth_error l k = Some a -> NoDup (f a)) ->
+  (forall a b x y z, nth_error l a = Some x -> nth_error l b = Some y -> In z (f x) -> In z (f y) -> a = b) ->
+  NoDup (flat_map f l).
+Proof.
+  induction l as [|h t IH]; intros Hn Hd; cbn [flat_map]; [constructor|].
+  apply NoDup_app_intro_d.
+  - apply (Hn 0 h). reflexivity.
+  - apply IH.
+    + intros k a Hk. apply (Hn (S k) a). exact Hk.
+    + intros a b x y z Ha Hb Hx Hy. assert (E : S a = S b) by (apply (Hd (S a) (S b) x y z); assumption).
+      congruence.
+  - intros z Hz Hz'. apply in_flat_map in Hz' as (y & Hy & Hzy).
+    apply In_nth_error in Hy as (k & Hk).
+    assert (E : 0 = S k) by (apply (Hd 0 (S k) h y z); [reflexivity|exact Hk|exact Hz|exact Hzy]).
+    discriminate.
+Qed.
+
+(* every stream of every remembered job, move and engine streams together, occurs once *)
+Theorem all_streams_nodup s : RI s -> NoDup (all_streams s).
+Proof.
+  intros I. unfold all_streams. apply (NoDup_flat_map_intro jstreams).
+  - intros k a Hk. exact (streams_distinct_within s k a I Hk).
+  - intros a b x y z Ha Hb Hx Hy. exact (streams_distinct_jobs s a b x y z I Ha Hb Hx Hy).
+Qed.
+
+(* ------------------------------------------------------------------ a restart is transparent *)
+
+Definition repick (j : jobstreams) : rop := RPick (length (js_move j)).
+
+Lemma nth_error_skipn_add {A} : forall m (l : list A) k, nth_error (skipn m l) k = nth_error l (m + k).
+Proof. induction m as [|m IH]; intros [|h t] k; cbn; try reflexivity; [destruct k; reflexivity|apply IH]. Qed.
+
+Lemma replay_picks sd e : forall l2 l1 c,
+  (forall k j, nth_error l2 k = Some j -> j = job_of e (c + k) (length (js_move j))) ->
+  rrun (mkRS sd e c l1) (map repick l2) = mkRS sd e (c + length l2) (l1 ++ l2).
+Proof.
+  induction l2 as [|j t IH]; intros l1 c H; cbn [map length].
+  - cbn. rewrite Nat.add_0_r, app_nil_r. reflexivity.
+  - change (rrun (mkRS sd e c l1) (repick j :: map repick t))
+      with (rrun (rstep (mkRS sd e c l1) (repick j)) (map repick t)).
+    unfold repick at 1. cbn [rstep seed entropy nchild issued].
+    rewrite IH.
+    + f_equal; [lia|]. rewrite <- app_assoc. cbn [app]. f_equal. f_equal.
+      specialize (H 0 j eq_refl). rewrite Nat.add_0_r in H. symmetry. exact H.
+    + intros k j' Hk. specialize (H (S k) j' Hk). replace (S c + k) with (c + S k) by lia. exact H.
+Qed.
+
+(* stop at any point, forget the [lost] most recent jobs, restart (repaired set_rgen) and issue
+   jobs on as many ensembles as the lost ones had: the stream table is exactly what it was —
+   the re-issued jobs get the streams of the jobs they replace, nothing else moves *)
+Theorem restart_transparent s lost :
+  RI s -> lost <= length (issued s) ->
+  rrun (rstep s (RRestart lost true)) (map repick (skipn (length (issued s) - lost) (issued s))) = s.
+Proof.
+  intros I L. pose proof (ri_le _ I) as Hle. pose proof (ri_ent _ I) as He.
+  destruct s as [sd en nc iss]. cbn [seed entropy nchild issued] in *. subst en.
+  cbn [rstep seed entropy nchild issued]. unfold removelast_n.
+  set (m := length iss - lost).
+  rewrite replay_picks.
+  - rewrite firstn_skipn. f_equal. rewrite skipn_length. subst m. lia.
+  - intros k j Hk. rewrite nth_error_skipn_add in Hk.
+    destruct (ri_ix _ I (m + k) j Hk) as (nens & E). cbn [seed nchild issued] in E.
+    rewrite E at 1. cbn [js_move job_of]. rewrite E. cbn [js_move job_of]. rewrite map_length, seq_length.
+    f_equal. subst m. lia.
+Qed.
